@@ -736,6 +736,36 @@ func (e *vEngine) op(f []string) {
 		e.conn.feed(vUnhex(f[1]), sizes)
 		e.srv.Run()
 		e.waitFor("feed-consumed", func() bool { return e.conn.allConsumed() || !e.xp.IsConnected() })
+	case "feedcallc": // feedcallc/<seq>/<ctype>/<meth hex>/<arg>[/<tags>]: a compressed call from the peer
+		seq, _ := strconv.ParseInt(f[1], 10, 64)
+		ct, _ := strconv.Atoi(f[2])
+		h := &codec.MsgpackHandle{WriteExt: true, RawToString: true}
+		var v interface{} = vParse(f[4])
+		if ct == 1 || ct == 2 {
+			var plain []byte
+			_ = codec.NewEncoderBytes(&plain, h).Encode(v)
+			if ct == 1 {
+				var buf bytes.Buffer
+				zw := gzip.NewWriter(&buf)
+				_, _ = zw.Write(plain)
+				_ = zw.Close()
+				v = buf.Bytes()
+			} else if z, err := msgpackzip.Compress(plain); err == nil {
+				v = z
+			}
+		}
+		els := []interface{}{4, seq, ct, string(vUnhex(f[3])), v}
+		if len(f) > 5 && f[5] != "-" {
+			els = append(els, map[string]interface{}(vTags(f[5])))
+		}
+		var content, prefix []byte
+		_ = codec.NewEncoderBytes(&content, h).Encode(els)
+		_ = codec.NewEncoderBytes(&prefix, h).Encode(len(content))
+		b := append(prefix, content...)
+		e.ev.add("feed/%s", vHex(b))
+		e.conn.feed(b, nil)
+		e.srv.Run()
+		e.waitFor("feed-consumed", func() bool { return e.conn.allConsumed() || !e.xp.IsConnected() })
 	case "feednowait": // feednowait/<hex>
 		e.ev.add("feed/%s", f[1])
 		e.conn.feed(vUnhex(f[1]), nil)
